@@ -12,7 +12,9 @@ TOKENS = [
 EDIT_ALPHABET = list("$@.[]()?!*,:'\"\\=<>&|-+_aezAE019 \n\t") + ["\u000b", " ", " ", "é", "\U0001F600",
                  # characters str.isdigit() / int() accept that are not ABNF DIGITs: superscript two (No),
                  # ARABIC-INDIC DIGIT THREE (Nd), CIRCLED DIGIT ONE (No)
-                 "\u00b2", "\u0663", "\u2460"]
+                 "\u00b2", "\u0663", "\u2460",
+                 # code points without a Unicode name: a C1 control and a private-use character
+                 "\u0085", "\ue000"]
 
 FIX = os.path.join(os.path.dirname(os.path.dirname(os.path.dirname(os.path.abspath(__file__)))), "fixtures")
 
